@@ -404,29 +404,39 @@ def run(ctx):
     # of the `&mut BytesMut` it writes the datagram into) must itself fill that buffer's nonce bytes from the CSPRNG — a sibling that only
     # reserves the bytes (zeros, or whatever `advance_mut` exposes) seals every datagram under the same nonce
     n_self = 0
-    for b in bodies:
-        if b.root != b.defp:
-            continue
-        bufs = {i for i in range(1, b.argc + 1) if "BytesMut" in b.local_ty(i) and b.local_ty(i).lstrip().startswith("&mut")}
-        if not bufs:
-            continue
-        for (blk, c, t) in b.calls():
+    from .common import outermost
+
+    def _self_carried_seals(fb_):
+        bufs_ = {i for i in range(1, fb_.argc + 1) if "BytesMut" in fb_.local_ty(i) and fb_.local_ty(i).lstrip().startswith("&mut")}
+        out_ = []
+        if not bufs_:
+            return bufs_, out_
+        for (blk, c, t) in fb_.calls():
             if c.method not in ("encrypt_in_place_detached", "encrypt_in_place") or len(t["args"]) < 2:
                 continue
             np_ = op_place(t["args"][1])
             if np_ is None:
                 continue
-            nlocs, ncalls, _ = b.slice_back([np_[0]])
-            if not (nlocs & bufs) or any((cc.self_def or "") in _inc_or_cnt_gens(prog) for (_, cc, _) in ncalls):
+            nlocs, ncalls, _ = fb_.slice_back([np_[0]])
+            if not (nlocs & bufs_) or any((cc.self_def or "") in _inc_or_cnt_gens(prog) for (_, cc, _) in ncalls):
                 continue
+            out_.append((blk, c, t))
+        return bufs_, out_
+    # judged on the flat view (a `put_random_nonce(dst, n)` helper is spliced in), and in the outermost function that carries the buffer
+    # (a `seal_packet(dst, ..)` helper whose caller reserved and filled the nonce is judged inside that caller)
+    cands = [b for b in bodies if b.root == b.defp and "shadowsocks" in b.defp and _self_carried_seals(prog.flat(b.defp))[1]]
+    for b in outermost(prog, cands):
+        fb_ = prog.flat(b.defp)
+        bufs, seals = _self_carried_seals(fb_)
+        for (blk, c, t) in seals:
             n_self += 1
             filled = False
-            for (b2, c2, t2) in b.calls():
-                if not is_csprng_call(prog, c2) or not t2["args"]:
+            for (b2, c2, t2) in fb_.calls():
+                if not is_csprng_call(prog, c2) or not t2["args"] or not fb_.can_reach(b2, blk):      # a fill on this seal's own path, before it
                     continue
                 for a in t2["args"]:
                     ap = op_place(a)
-                    if ap is not None and (b.slice_back([ap[0]])[0] & bufs) and b.local_ty(ap[0]).lstrip().startswith("&mut"):
+                    if ap is not None and (fb_.slice_back([ap[0]])[0] & bufs) and fb_.local_ty(ap[0]).lstrip().startswith("&mut"):
                         filled = True
             ctx.ob("N1", b.defp, "self-carried-nonce:filled-from-csprng", loc(t["sp"]), filled,
                    "the nonce bytes of the output buffer are filled by a CSPRNG call in this function" if filled else
